@@ -1751,3 +1751,297 @@ lx_harness! {
         std::mem::forget(lx);
     }
 }
+
+// =============================================================================================
+// Numeric literals in open code (C08, C16): disambiguation between decimal and hex notation, with
+// the two parsers replaced by their contracts (their integer paths are checked in numeric.rs).
+
+pub(crate) static mut DEC_RES: (bool, usize, u16, bool) = (false, 0, 0, false);
+pub(crate) static mut HEX_RES: (bool, usize, u16, bool) = (false, 0, 0, false);
+
+fn numeric_prefix_len(source: &str) -> usize {
+    // numeric text is ASCII: digits, hex letters, '.', exponent sign
+    let b = source.as_bytes();
+    let mut l = 0usize;
+    let mut i = 0;
+    while i < 4 {
+        if i < b.len() && l == i && (b[i].is_ascii_hexdigit() || matches!(b[i], b'.' | b'+' | b'-')) {
+            l += 1;
+        }
+        i += 1;
+    }
+    l
+}
+
+fn any_numeric_result(source: &str, which_hex: bool) -> Option<NumericParserResult> {
+    let max = numeric_prefix_len(source);
+    // contract: the decimal parser always recognises ".<digit>" (the only way the lexer calls it on a dot)
+    let some: bool = kani::any::<bool>() || (!which_hex && source.as_bytes().first() == Some(&b'.'));
+    let len: usize = kani::any();
+    let ty: u8 = kani::any();
+    let err: bool = kani::any();
+    if !some || max == 0 {
+        unsafe {
+            if which_hex {
+                HEX_RES = (false, 0, 0, false);
+            } else {
+                DEC_RES = (false, 0, 0, false);
+            }
+        }
+        return None;
+    }
+    kani::assume(len >= 1 && len <= max);
+    let tt = match ty % 3 {
+        0 => TokenType::IntegerLiteral,
+        1 => TokenType::FloatLiteral,
+        _ => TokenType::FloatExponentLiteral,
+    };
+    unsafe {
+        if which_hex {
+            HEX_RES = (true, len, tt as u16, err);
+        } else {
+            DEC_RES = (true, len, tt as u16, err);
+        }
+    }
+    Some(NumericParserResult {
+        token: (tt, if tt == TokenType::IntegerLiteral { Payload::Integer(len as u64) } else { Payload::Float(len as f64) }),
+        length: NonZeroUsize::new(len).unwrap(),
+        error: if err { Some(ErrorKind::InvalidNumericLiteral) } else { None },
+    })
+}
+pub(crate) fn stub_try_parse_decimal(source: &str, _i: bool, _f: bool) -> Option<NumericParserResult> {
+    any_numeric_result(source, false)
+}
+pub(crate) fn stub_try_parse_hex(source: &str) -> Option<NumericParserResult> {
+    any_numeric_result(source, true)
+}
+
+lx_harness! {
+    #[kani::unwind(6)]
+    #[kani::stub(try_parse_decimal, stub_try_parse_decimal)]
+    #[kani::stub(try_parse_hex_integer, stub_try_parse_hex)]
+    fn lx_numeric_literal() {
+        let t = Txt::<4, 20>::any(PFX, &[]);
+        kani::assume(t.n >= 1);
+        let seen_dot: bool = kani::any();
+        if seen_dot {
+            kani::assume(t.ch[0] == '.' && t.n >= 2 && t.ch[1].is_ascii_digit());
+        } else {
+            kani::assume(t.ch[0].is_ascii_digit());
+        }
+        let mut lx = setup(&t, &[LexerMode::Default]);
+        let pre = snapshot(&lx, &t);
+        lx.lex_numeric_literal(seen_dot);
+        let (dec, hex) = unsafe { (DEC_RES, HEX_RES) };
+        let pi = check_common(&lx, &t, &pre);
+        check_progress::<4, 20, 2>(&lx, &t, &pre, pi);
+        let hex_ok = !seen_dot && hex.0;
+        let is_x = |i: usize| matches!(ch_at(&t, i), Some('x' | 'X'));
+        // longest match, tie broken by a trailing x
+        let (len, tt, perr, check_x) = if dec.0 && hex_ok {
+            if dec.1 > hex.1 {
+                (dec.1, dec.2, dec.3, false)
+            } else if hex.1 > dec.1 || is_x(hex.1) {
+                (hex.1, hex.2, hex.3, true)
+            } else {
+                (dec.1, dec.2, dec.3, false)
+            }
+        } else if dec.0 {
+            (dec.1, dec.2, dec.3, false)
+        } else if hex_ok {
+            (hex.1, hex.2, hex.3, true)
+        } else {
+            // neither parser: all leading digits, flagged invalid
+            let mut l = 0;
+            let mut i = 0;
+            while i < 4 {
+                if i < t.n && l == i && t.ch[i].is_ascii_digit() {
+                    l += 1;
+                }
+                i += 1;
+            }
+            (l, TokenType::FloatLiteral as u16, true, false)
+        };
+        let has_x = check_x && is_x(len);
+        assert!(pi == pre.pi + len + has_x as usize, "C08/C16: numeric token spans the longest notation, plus the x of hex notation only (either case)");
+        assert!(shadow::tok_n() == pre.tok_n + 1, "C08: one numeric token");
+        let tk = shadow::tok(pre.tok_n);
+        assert!(tk.token_type as u16 == tt && tk.channel == TokenChannel::DEFAULT, "C08: token type follows from the notation chosen");
+        let missing_x = check_x && !has_x;
+        assert!(lx.errors.len() == pre.err_n + perr as usize + missing_x as usize, "C08: numeric errors = parser error + missing x");
+        if missing_x {
+            assert!(lx.errors[lx.errors.len() - 1].error_kind() == ErrorKind::UnterminatedHexNumericLiteral, "C08: hex notation without x is reported");
+        }
+        kani::cover!(dec.0 && hex_ok && dec.1 == hex.1 && is_x(hex.1) && t.ch[hex.1] == 'x', "tie decided by a lower-case x");
+        kani::cover!(dec.0 && hex_ok && dec.1 > hex.1 && is_x(dec.1), "decimal wins although an x follows");
+        kani::cover!(missing_x);
+        kani::cover!(seen_dot);
+        std::mem::forget(lx);
+    }
+}
+
+// =============================================================================================
+// Macro variable expressions (C06: resolve tokens are 2^k ampersands with payload k; no empty tokens)
+
+pub(crate) fn stub_resolve_ops(amp_count: u32) -> Vec<u8> {
+    // set bits of the count, highest first (proved for the real function by mac_resolve_ops_spec)
+    let mut v = Vec::with_capacity(4);
+    kani::assume(amp_count < 8);
+    if amp_count & 4 != 0 {
+        v.push(2u8);
+    }
+    if amp_count & 2 != 0 {
+        v.push(1u8);
+    }
+    if amp_count & 1 != 0 {
+        v.push(0u8);
+    }
+    v
+}
+
+macro_rules! lx_macro_var_expr_harness {
+    ($k:literal, $b:literal, $uw:literal, $name:ident, $fixed:expr) => {
+lx_harness! {
+    #[kani::unwind($uw)]
+    #[kani::stub(unicode_ident::is_xid_start, det_xid_start)]
+    #[kani::stub(unicode_ident::is_xid_continue, det_xid_continue)]
+    #[kani::stub(get_macro_resolve_ops_from_amps, stub_resolve_ops)]
+    fn $name() {
+        let t = Txt::<$k, $b>::any(PFX, $fixed);
+        // ASCII keeps the query small; the non-ASCII name paths are the same eat_while loop
+        let mut i = 0;
+        while i < $k {
+            kani::assume(i >= t.n || t.ch[i].is_ascii());
+            i += 1;
+        }
+        let mut lx = setup(&t, &[LexerMode::Default]);
+        let pre = snapshot(&lx, &t);
+        let r = lx.lex_macro_var_expr();
+        let (is_m, _cnt) = ref_macro_amp(&t, 0);
+        assert!(r == is_m, "C13/C06: macro variable trigger = ampersands followed by a name start");
+        if !r {
+            assert!(lx.cur_byte_offset().get() as usize == t.byte_at(pre.pi) && shadow::tok_n() == pre.tok_n, "C06: a plain ampersand run is left to the caller");
+        } else {
+            // tokens tile the consumed text; each has the shape of its type; none is empty
+            let p = lx.cur_byte_offset().get() as usize;
+            let pi = t.idx_of(p).unwrap();
+            let tn = shadow::tok_n();
+            assert!(tn > pre.tok_n && tn <= pre.tok_n + 6, "C01: bounded number of tokens");
+            let mut j = 0;
+            while j < 6 {
+                let jj = pre.tok_n + j;
+                if jj < tn {
+                    let tk = shadow::tok(jj);
+                    let s = t.idx_of(tk.byte_offset.get() as usize).unwrap();
+                    let e = if jj + 1 < tn { t.idx_of(shadow::tok(jj + 1).byte_offset.get() as usize).unwrap() } else { pi };
+                    assert!(e > s, "C06: empty token inside a macro variable expression");
+                    assert!(tk.start.get() == t.char_at(s) && tk.channel == TokenChannel::DEFAULT, "C03/C06: token offsets/channel");
+                    match tk.token_type {
+                        TokenType::MacroVarResolve => {
+                            let k = match tk.payload {
+                                Payload::Integer(k) => k,
+                                _ => 99,
+                            };
+                            assert!(k < 3 && (e - s) as u64 == 1u64 << k, "C06: resolve token is 2^k ampersands with payload k");
+                            let mut q = 0;
+                            while q < $k {
+                                if q >= s && q < e {
+                                    assert!(t.ch[q] == '&', "C06: resolve token contains a non-ampersand");
+                                }
+                                q += 1;
+                            }
+                        }
+                        TokenType::MacroVarTerm => assert!(e == s + 1 && t.ch[s] == '.', "C06: terminator token is a dot"),
+                        TokenType::MacroString => assert!(ref_name_start(t.ch[s]), "C06: name part starts with a name start"),
+                        _ => assert!(false, "C06: unexpected token type in a macro variable expression"),
+                    }
+                }
+                j += 1;
+            }
+            assert!(t.idx_of(shadow::tok(pre.tok_n).byte_offset.get() as usize) == Some(pre.pi), "C02: first token starts where the expression starts");
+            kani::cover!($k < 6 || tn >= pre.tok_n + 4, "continuation with an odd ampersand run");
+            kani::cover!(shadow::tok(pre.tok_n).token_type == TokenType::MacroVarResolve && tn >= pre.tok_n + 2);
+        }
+        assert!(lx.errors.len() == pre.err_n && lx.mode_stack.len() == pre.stack_len);
+        std::mem::forget(lx);
+    }
+}
+    };
+}
+lx_macro_var_expr_harness!(3, 16, 5, lx_macro_var_expr_k3, &['&']);
+lx_macro_var_expr_harness!(4, 20, 6, lx_macro_var_expr_k4, &['&']);
+lx_macro_var_expr_harness!(6, 28, 7, lx_macro_var_expr_cont_k6, &['&', 'a', '&', '&', '&']);
+
+// =============================================================================================
+// Lexer::new: byte-order mark handling (C02, C03, C17)
+
+pub(crate) fn stub_work_buffer_new(source: &str) -> WorkTokenizedBuffer {
+    WorkTokenizedBuffer::verif_new(source.len(), 4)
+}
+
+lx_harness! {
+    #[kani::unwind(5)]
+    #[kani::stub(WorkTokenizedBuffer::new, stub_work_buffer_new)]
+    fn lx_new_bom() {
+        let first: char = kani::any();
+        let t = Txt::<3, 16>::any("", &[first]);
+        shadow::reset(t.len);
+        let src = t.as_str();
+        let r = Lexer::new(src, None, None);
+        assert!(r.is_ok(), "C01: Lexer::new succeeds below 4 GiB");
+        let lx = r.unwrap();
+        let bom = first == '\u{feff}';
+        let (b, c) = if bom { (3u32, 1u32) } else { (0, 0) };
+        assert!(lx.cur_byte_offset().get() == b && lx.cursor.char_offset() == c, "C17/C02: only a leading byte-order mark is skipped");
+        assert!(lx.cur_token_byte_offset.get() == b && lx.cur_token_start.get() == c, "C17/C02/C03: first token starts right after the byte-order mark (byte +3, char +1)");
+        assert!(shadow::line_n() == 1 && shadow::line(0) == (b, c), "C17/C04: the first line starts after the byte-order mark");
+        assert!(super::buffer::verif::line_idx_get(lx.cur_token_line) == 0 && shadow::tok_n() == 0, "C02: no token yet, first line");
+        assert!(lx.mode_stack.len() == 1 && lx.mode_stack[0] == LexerMode::Default && lx.checkpoint.is_none() && lx.macro_nesting_level == 0 && lx.errors.is_empty(), "C15: initial configuration");
+        assert!(lx.pending_stat_stack.len() == 1 && lx.pending_stat_stack.get(0) == Some(false), "C15: initial pending-statement stack");
+        kani::cover!(bom && t.n == 3);
+        kani::cover!(!bom && first.len_utf8() == 3);
+        std::mem::forget(lx);
+    }
+}
+
+// =============================================================================================
+// End of input inside a double-quoted string (C10): start token retyped iff it is the LAST token
+
+lx_harness! {
+    #[kani::unwind(4)]
+    #[kani::stub(unicode_ident::is_xid_start, det_xid_start)]
+    #[kani::stub(unicode_ident::is_xid_continue, det_xid_continue)]
+    fn lx_str_expr_text_eof() {
+        let t = Txt::<1, 8>::any(PFX, &[]);
+        let mut i = 0;
+        while i < 1 {
+            kani::assume(i >= t.n || !matches!(t.ch[i], '"' | '&' | '%'));
+            i += 1;
+        }
+        let mut lx = setup(&t, &[LexerMode::Default, LexerMode::StringExpr { allow_stat: kani::any() }]);
+        // tokens so far: the opening quote, then optionally one more token on any channel
+        shadow::preload_token(shadow::mk_token(TokenChannel::DEFAULT, TokenType::StringExprStart, 1, 1, 0, Payload::None));
+        let more: bool = kani::any();
+        let more_ch = any_channel();
+        if more {
+            let tt = any_token_type();
+            kani::assume(tt != TokenType::StringExprStart && tt != TokenType::EOF);
+            shadow::preload_token(shadow::mk_token(more_ch, tt, 2, 1, 0, Payload::None));
+        }
+        let pre = snapshot(&lx, &t);
+        lx.start_token();
+        lx.lex_str_expr_text();
+        let pi = check_common(&lx, &t, &pre);
+        assert!(pi == t.n && lx.mode_stack.len() == pre.stack_len - 1, "C10: an unterminated string expression is closed at end of input");
+        assert!(lx.errors.len() == pre.err_n + 1 && lx.errors[pre.err_n].error_kind() == ErrorKind::UnterminatedStringLiteral, "C10: and reported");
+        if more {
+            assert!(shadow::tok_n() == pre.tok_n + 1 && shadow::tok(pre.tok_n).token_type == TokenType::StringExprEnd, "C10: a string expression with content gets an end token");
+            assert!(shadow::tok(0).token_type == TokenType::StringExprStart && shadow::tok(1).channel == more_ch, "C10: earlier tokens keep their type and channel");
+        } else {
+            assert!(shadow::tok_n() == pre.tok_n && shadow::tok(0).token_type == TokenType::StringLiteral, "C10: a plain unterminated literal is the retyped start token");
+        }
+        kani::cover!(more && more_ch == TokenChannel::HIDDEN && t.n == 0);
+        kani::cover!(!more && t.n == 1);
+        std::mem::forget(lx);
+    }
+}
